@@ -96,9 +96,59 @@ REC = Recorder()
 
 
 # ---------------------------------------------------------------------------
+def big_input_net(rng, quick=True):
+    """one rank-4..8 tensor contracted with small matrices / vectors, so that an INPUT is larger than
+    every intermediate; star-shaped path (the big tensor absorbs one small tensor at a time)"""
+    R = rng.randint(4, 6 if quick else 8)
+    legs = list(gen.SYMS[:R])
+    size_dict = {a: rng.choice([2, 2, 3, 4]) for a in legs}
+    inputs = [tuple(legs)]
+    output = []
+    nxt = R
+    for a in legs:
+        r = rng.random()
+        if r < 0.45:                      # matrix to a smaller (or equal) new output index
+            b = gen.SYMS[nxt]
+            nxt += 1
+            size_dict[b] = rng.randint(1, size_dict[a])
+            inputs.append((a, b))
+            output.append(b)
+        elif r < 0.8:                     # vector: the leg is contracted away
+            inputs.append((a,))
+        elif r < 0.9:                     # leg stays open
+            output.append(a)
+        else:                             # hyper index: two vectors on the same leg
+            inputs.append((a,))
+            inputs.append((a,))
+    if len(inputs) < 3:
+        inputs += [(legs[0],), (legs[1],)]
+    rng.shuffle(output)
+    N = len(inputs)
+    if rng.random() < 0.7:
+        path = [(0, 1)] + [(0, m - 1) for m in range(N - 1, 1, -1)]
+    else:
+        path = gen.rand_path(rng, N)
+    return inputs, tuple(output), size_dict, tuple(path)
+
+
 def make_case(rng, quick=True):
     import cotengra as ctg
     style = rng.random()
+    if style < 0.22:
+        inputs, output, size_dict, path = big_input_net(rng, quick)
+        tree = ctg.ContractionTree.from_path(inputs, output, size_dict, path=path)
+        pre = []
+        if rng.random() < 0.35:
+            for ix in rng.sample(sorted(inputs[0]), rng.randint(1, 2)):
+                if rng.random() < 0.4:
+                    v = rng.randrange(size_dict[ix])
+                    tree.remove_ind_(ix, project=v)
+                    pre.append((ix, v))
+                else:
+                    tree.remove_ind_(ix)
+                    pre.append((ix, None))
+        return inputs, output, size_dict, path, tree, pre
+    style = (style - 0.22) / 0.78
     if style < 0.5:
         # friendlier networks: larger dimensions, so that slicing has room
         inputs, output, size_dict = gen.rand_net(rng, nmin=3, nmax=7 if quick else 8, max_ix=8, dmax=4,
@@ -206,7 +256,7 @@ def make_params(rng, tree):
         ms = tree.max_size()
         tg["target_size"] = max(1, ms // rng.choice([1, 2, 2, 3, 4, 4, 8, 16, 64])) if rng.random() < 0.9 else ms * 2
     if "slices" in kinds:
-        tg["target_slices"] = rng.choice([1, 2, 2, 3, 4, 4, 6, 8, 9, 12, 16, 30])
+        tg["target_slices"] = rng.choice([1, 2, 2, 3, 4, 4, 6, 8, 9, 12, 16, 30, 64, 64])
     if "overhead" in kinds:
         r = rng.random()
         if r < 0.45:
@@ -235,9 +285,22 @@ def fl(tg):
 
 # ---------------------------------------------------------------------------
 # canonical observations of the real objects, in the model's layout
+class ShapeError(Exception):
+    """the implementation's state does not have the shape the model speaks about"""
+
+
 def obs_costs(cost, dfs_of_real):
     I = gen.IDX
     nreal = len(cost.contractions)
+    if nreal != len(dfs_of_real):
+        raise ShapeError("ContractionCosts.contractions has %d entries, the tree has %d internal nodes "
+                         "(the model: exactly the N-1 contractions of the tree, no leaves)" % (nreal, len(dfs_of_real)))
+    for c in cost.contractions:
+        if not (isinstance(c, tuple) and len(c) == 4):
+            raise ShapeError("a contraction entry is not an (involved, legs, size, flops) tuple: %r" % (c,))
+    for k, wh in cost._where.items():
+        if any((not isinstance(i, int)) or i < 0 or i >= nreal for i in wh):
+            raise ShapeError("_where[%r] = %r refers to a contraction that does not exist" % (k, sorted(wh)))
     real_of_dfs = [None] * nreal
     for i, k in enumerate(dfs_of_real):
         real_of_dfs[k] = i
@@ -318,6 +381,34 @@ def forbidden_broken(ao, chosen, output, already):
 
 
 # ---------------------------------------------------------------------------
+def observe_calls(sf, done, dfs_of_real, tlit):
+    """the recorded calls in the model's layout: (Coq literals of the calls, expected observations, stray keys)"""
+    I = gen.IDX
+    calls_lit, rhs_calls, stray_all = [], [], []
+    obs_costs(sf.cost0, dfs_of_real)      # shape of the incoming cost object, also when every call raises
+    for _, c in done[-1]["snapshot"]:
+        if len(c.contractions) != len(dfs_of_real):
+            raise ShapeError("a cached ContractionCosts has %d contractions, the tree has %d internal nodes"
+                             % (len(c.contractions), len(dfs_of_real)))
+    for d in done:
+        oracles = [[I[x] for x in t["choices"]] for t in d["trials"]]
+        ovl = "(%s, (%s, %s))" % (coq(tlit(d["ov"], "target_size")), coq(tlit(d["ov"], "target_overhead")),
+                                  coq(tlit(d["ov"], "target_slices")))
+        calls_lit.append("(%s, %s)" % (ovl, coq(oracles) if oracles else "[]"))
+        if d["kind"] in (0, E_MIN_EMPTY):
+            tr_obs = [obs_pred(key_of(sf, t["ret"]), t["ret"]) for t in d["trials"]]
+            ch_obs = []
+            for k, c in d["snapshot"]:
+                o, stray = obs_costs(c, dfs_of_real)
+                stray_all += stray
+                ch_obs.append((sorted(I[x] for x in k), o))
+            best_obs = (0, Some(obs_pred(d["result"][0], d["result"][1]))) if d["kind"] == 0 else (d["kind"], None)
+            rhs_calls.append(coq((0, tr_obs, ch_obs, best_obs)))
+        else:
+            rhs_calls.append(coq((d["kind"], [], [], (d["kind"], None))))
+    return calls_lit, rhs_calls, stray_all
+
+
 def run_case(ctx, rng, ci, cases, records, scratch_cases):
     import cotengra as ctg
     from cotengra.slicer import SliceFinder
@@ -406,32 +497,27 @@ def run_case(ctx, rng, ci, cases, records, scratch_cases):
 
     fdl = "(finder_of_tree %s %s %s %s %s %s %s)" % (
         netl, sll, tl, aol, coq(tlit(tg, "target_size")), coq(tlit(tg, "target_overhead")), coq(tlit(tg, "target_slices")))
-    calls_lit, rhs_calls, stray_all = [], [], []
-    for d in done:
-        oracles = [[I[x] for x in t["choices"]] for t in d["trials"]]
-        ovl = "(%s, (%s, %s))" % (coq(tlit(d["ov"], "target_size")), coq(tlit(d["ov"], "target_overhead")),
-                                  coq(tlit(d["ov"], "target_slices")))
-        calls_lit.append("(%s, %s)" % (ovl, coq(oracles) if oracles else "[]"))
-        if d["kind"] in (0, E_MIN_EMPTY):
-            tr_obs = [obs_pred(key_of(sf, t["ret"]), t["ret"]) for t in d["trials"]]
-            ch_obs = []
-            for k, c in d["snapshot"]:
-                o, stray = obs_costs(c, dfs_of_real)
-                stray_all += stray
-                ch_obs.append((sorted(I[x] for x in k), o))
-            best_obs = (0, Some(obs_pred(d["result"][0], d["result"][1]))) if d["kind"] == 0 else (d["kind"], None)
-            rhs_calls.append(coq((0, tr_obs, ch_obs, best_obs)))
-        else:
-            rhs_calls.append(coq((d["kind"], [], [], (d["kind"], None))))
+    calls_lit, rhs_calls, stray_all, shape_problem = [], [], [], None
+    try:
+        calls_lit, rhs_calls, stray_all = observe_calls(sf, done, dfs_of_real, tlit)
+    except CaseTimeout:
+        raise
+    except Exception as e:   # never a harness exception: an unexpected shape is a reported disagreement
+        shape_problem = "%s: %s" % (type(e).__name__, e)
+        ctx.count("unexpected_state_shape")
+        ctx.fail("the implementation's SliceFinder / ContractionCosts state cannot be observed in the model's "
+                 "layout (model and implementation disagree): " + shape_problem,
+                 dict(rec, correspondence="observation of sf.costs / trial returns"), found_input=False)
     calls_l = "[" + "; ".join(calls_lit) + "]"
-    cases.append(("case%d" % ci, "(obs_calls %s %s (cache0 %s))" % (fdl, calls_l, fdl),
-                  "[" + "; ".join(rhs_calls) + "]"))
-    records.append(rec)
-    # verified checkers inside Coq: theorem hypotheses, from-scratch tables, overhead side condition
-    scratch_cases.append(("scratch%d" % ci,
-                          "(hyps_b %s %s %s, calls_check_b %s %s %s %s %s (cache0 %s))" % (
-                              netl, sll, tl, netl, sll, tl, fdl, calls_l, fdl),
-                          "(true, true)"))
+    if shape_problem is None:
+        cases.append(("case%d" % ci, "(obs_calls %s %s (cache0 %s))" % (fdl, calls_l, fdl),
+                      "[" + "; ".join(rhs_calls) + "]"))
+        records.append(rec)
+        # verified checkers inside Coq: theorem hypotheses, from-scratch tables, overhead side condition
+        scratch_cases.append(("scratch%d" % ci,
+                              "(hyps_b %s %s %s, calls_check_b %s %s %s %s %s (cache0 %s))" % (
+                                  netl, sll, tl, netl, sll, tl, fdl, calls_l, fdl),
+                              "(true, true)"))
     if stray_all:
         ctx.fail("ContractionCosts keeps reduction/_where entries for indices no longer in size_dict: %r"
                  % sorted(set(stray_all)), rec, found_input=False)
@@ -490,6 +576,45 @@ def run_case(ctx, rng, ci, cases, records, scratch_cases):
             ctx.count("returned_2plus")
         if any(len(t["choices"]) > len(key_of(sf, t["ret"]) or ()) for t in d["trials"] if t["ret"] is not None):
             ctx.count("overhead_break")
+
+    # ---- oracle: EVERY slicing the finder has costed (the candidates of `best`), also when the
+    # search raised: its predicted (size, total flops, nslices) against the definition ----------
+    projected = [ix for ix, v in pre if v is not None]
+    entries = list(sf.costs.items())
+    if len(entries) > 24:
+        entries = entries[:8] + rng.sample(entries[8:], 16)
+    big_input_seen = False
+    for K, cost in entries:
+        chosen = sorted(K)
+        try:
+            spec = oracle.spec_costs(inputs, output, size_dict, nested, pre_ix + chosen, projected)
+            removed_now = set(pre_ix) | set(chosen)
+            largest_input = max(oracle.prod(size_dict[ix] for ix in set(t) if ix not in removed_now) for t in inputs)
+            if spec["size"] is not None and largest_input > spec["size"]:
+                big_input_seen = True
+            pred = (cost.size, cost.total_flops * base["mult"], cost.nslices * base["mult"])
+            real = (spec["size"], spec["flops"], spec["multiplicity"])
+        except CaseTimeout:
+            raise
+        except Exception as e:
+            ctx.fail("costed slicing %r cannot be judged: %r" % (chosen, e), dict(rec, key=chosen), found_input=False)
+            continue
+        if pred != real:
+            extra = ""
+            for ci_call, d in enumerate(done):
+                if d["kind"] in (E_FORBIDDEN, E_KEY, E_MAX_EMPTY, E_MIN_EMPTY) and not targets_hold(
+                        d["eff"], spec["size"], spec["flops"], base["flops"], spec["multiplicity"], base["mult"]) \
+                        and not forbidden_broken(ao, chosen, output, pre_ix):
+                    extra = ("; search call %d raised (kind %d) although this slicing, which the finder costed, "
+                             "meets the call's targets %r on the real tree" % (
+                                 ci_call, d["kind"], {k: str(v) for k, v in d["eff"].items()}))
+                    break
+            ctx.fail("slicing %r costed by the finder: predicted (size, total flops, nslices) = %r, the tree sliced "
+                     "on it has %r (largest input tensor of the sliced network: %r)%s" % (
+                         chosen, pred, real, largest_input, extra), dict(rec, key=chosen))
+            break
+    if big_input_seen:
+        ctx.count("big_input>intermediates(sliced)")
 
     # ---- tree.slice post-conditions ---------------------------------------------
     for reslice in (False, True):
@@ -576,6 +701,12 @@ def run(ctx):
             REC.cur = None
     ctx.log("ran %d cases; features %r" % (ncases, {k: v for k, v in ctx.coverage["features"].items()
                                                    if k.startswith(("search", "returned", "slice"))}))
+
+    floor = ctx.n(60, 800)
+    got = ctx.coverage["features"].get("big_input>intermediates(sliced)", 0)
+    if got < floor:
+        ctx.fail("generator floor not met: only %d cases with a costed slicing whose largest input tensor exceeds "
+                 "every intermediate (floor %d)" % (got, floor), {"seed": ctx.seed}, found_input=False)
 
     failing = ctx.coq_cases("c07_replay", ["SlicerCosts"], cases, chunk=ctx.n(32, 64), timeout=900)
     for idx, label, val in failing:
